@@ -22,7 +22,7 @@ def load_all(prop_cfg):
     for p in sorted(glob.glob(os.path.join(VERIF, "specs", "*.py"))):
         w.load_specs(p)
     dsl.REG.world = w
-    for m in prop_cfg["contracts"]:
+    for m in prop_cfg.get("contracts", []):
         importlib.import_module("contracts." + m)
     return w
 
@@ -64,13 +64,23 @@ def worker(task):
         r = verify.verify_function(I, q, prop)
         out.update(status=r.status, reason=r.reason, paths=r.paths, exits=r.exits, requires_sat=r.requires_sat)
         out["gen_time_s"] = round(time.time() - t0, 2)
-        known = {e["obligation"]: e for e in G["known"] if e.get("status") == "known"}
+        known = {e["obligation"]: e for e in G["known"] if e.get("status") == "known" and e.get("obligation")}
         # group obligations into slices for forked discharge
         obs = r.obligs
         n = max(inner, 6) if len(obs) > 24 else 1
         slices = [obs[i::n] for i in range(n)]
         def do_slice(sl):
-            return [discharge_one((I, ob, known.get(ob.name), timeout_ms, seed, both, q)) for ob in sl]
+            out_ = []
+            for ob in sl:
+                r_ = par.fork_call(lambda ob=ob: discharge_one((I, ob, known.get(ob.name), timeout_ms, seed, both, q)),
+                                   deadline_s=3 * timeout_ms / 1000 + 10)
+                if r_[0] == "ok":
+                    out_.append(r_[1])
+                else:
+                    out_.append({"name": ob.name, "kind": ob.kind, "trace": ob.trace[-8:], "clause": ob.clause, "qual": q,
+                                 "size": len(ob.pc), "verdict": "unknown", "backend": "z3", "time_s": 3 * timeout_ms / 1000 + 10,
+                                 "reason": "solver exceeded the hard wall-clock limit" if r_[0] == "killed" else r_[1][-500:]})
+            return out_
         for res in par.fork_map(do_slice, slices, n):
             if res[0] != "ok":
                 raise RuntimeError("discharge child failed: " + res[1])
@@ -107,12 +117,16 @@ def run_property(prop, tier, seed, update_lock=False):
         mod, _, name = fn.rpartition(".")
         f = getattr(importlib.import_module(mod), name)
         extra_results.append(f(w, tier, seed))
+    for bm in cfg.get("bounded", []):
+        from pyvc import bounded
+        extra_results.append(bounded.runner(bm, prop)(w, tier, seed))
     return finish(prop, tier, seed, cfg, w, results, extra_results, t0, update_lock)
 
 
 def finish(prop, tier, seed, cfg, w, results, extra_results, t0, update_lock):
     names = {}
     undecided, crashes, violations, known_lines = [], [], [], []
+    bviol = []
     solver_time = 0.0
     backends = {"z3": 0, "cvc5": 0}
     instances = 0
@@ -166,6 +180,8 @@ def finish(prop, tier, seed, cfg, w, results, extra_results, t0, update_lock):
                 ent["known"] = o["known"]
         undecided += er.get("undecided", [])
         crashes += er.get("errors", [])
+        known_lines += er.get("known_lines", [])
+        bviol += er.get("bounded_failures", [])
         assumptions |= set(er.get("assumptions", []))
         samples += er.get("samples", [])[:3]
     # ---- lock: every obligation discharged on the pinned tree must be generated again
@@ -218,7 +234,7 @@ def finish(prop, tier, seed, cfg, w, results, extra_results, t0, update_lock):
             "explanation": cfg.get("explanation", ""),
         },
         "assumptions": sorted(assumptions),
-        "wall_s": wall, "violations": len(violations),
+        "wall_s": wall, "violations": len(violations) + len(bviol),
     }
     if bounded:
         ev["coverage"]["evaluations"] = sum(b.get("evaluations", 0) for b in bounded)
@@ -234,11 +250,14 @@ def finish(prop, tier, seed, cfg, w, results, extra_results, t0, update_lock):
         for c in crashes:
             print("ERROR", c)
         return 3
-    if violations:
+    if violations or bviol:
         from pyvc import replay
         for name, o, ent in violations:
             path = replay.write_and_run(prop, name, o, w)
             print(f"VIOLATION property={prop} replay={path[0]}{'' if path[1] else ' no-failing-input-found'}")
+        for rec in bviol:
+            path = replay.write_bounded(prop, rec, w)
+            print(f"VIOLATION property={prop} replay={path}")
         return 1
     if undecided:
         for u in undecided:
